@@ -193,6 +193,7 @@ func ruleBgCtx(c *Ctx, r *R, names ...string) {
 		// cancel stored into a field of the returned struct whose Close calls it
 		ret := returnedStruct(bi.fn)
 		stored := ""
+		var storedLit *ssa.Function
 		if ret != nil && bi.cancel.Referrers() != nil {
 			for _, ref := range *bi.cancel.Referrers() {
 				if st, ok := ref.(*ssa.Store); ok {
@@ -204,6 +205,20 @@ func ruleBgCtx(c *Ctx, r *R, names ...string) {
 				if st, ok := ref.(*ssa.Store); ok {
 					if cell, ok := st.Addr.(*ssa.Alloc); ok && cell.Referrers() != nil {
 						for _, r2 := range *cell.Referrers() {
+							// captured by a literal that is itself what the returned stream keeps (stop: func() { cancel();
+							// workers.Wait() }): Close calls the cancel function by calling that field
+							if mc, ok := r2.(*ssa.MakeClosure); ok && mc.Referrers() != nil {
+								for _, r3 := range *mc.Referrers() {
+									if st2, ok := r3.(*ssa.Store); ok && st2.Val == ssa.Value(mc) {
+										if fa, ok := st2.Addr.(*ssa.FieldAddr); ok && fa.X == ssa.Value(ret) {
+											if lit, _ := mc.Fn.(*ssa.Function); lit != nil {
+												stored = fieldName(fa.X.Type(), fa.Field)
+												storedLit = lit
+											}
+										}
+									}
+								}
+							}
 							if ld, ok := r2.(*ssa.UnOp); ok && ld.Referrers() != nil {
 								for _, r3 := range *ld.Referrers() {
 									if st2, ok := r3.(*ssa.Store); ok {
@@ -277,11 +292,19 @@ func ruleBgCtx(c *Ctx, r *R, names ...string) {
 					if fieldOfChan(call.Call.Value) == stored {
 						cancelIn = in
 					}
-					if cal := call.Call.StaticCallee(); cal != nil && fname(cal) == "Wait" && cal.Signature.Recv() != nil {
+					if cal := staticCallee(&call.Call); cal != nil && fname(cal) == "Wait" && cal.Signature.Recv() != nil {
 						waitIn = in
 					}
+					// the field holds a literal that cancels and then waits itself
+					if storedLit != nil && fieldOfChan(call.Call.Value) == stored && resolveFuncValue(call.Call.Value, 0) == storedLit {
+						if w, cn, o := closeWaits(storedLit); w && cn && o && cancelsFirst(storedLit, bi.cancel) {
+							waitIn = in
+						} else {
+							cancelIn = nil
+						}
+					}
 				})
-				if cancelIn != nil && waitIn != nil && cancelIn.Block().Dominates(waitIn.Block()) && (cancelIn.Block() != waitIn.Block() || idxIn(cancelIn) < idxIn(waitIn)) && cancelIn.Block() == closeFn.Blocks[0] {
+				if cancelIn != nil && waitIn != nil && cancelIn.Block().Dominates(waitIn.Block()) && (cancelIn.Block() != waitIn.Block() || idxIn(cancelIn) < idxIn(waitIn) || (cancelIn == waitIn && storedLit != nil)) && cancelIn.Block() == closeFn.Blocks[0] {
 					okClose = true
 				}
 			}
@@ -821,4 +844,30 @@ func viaConstructor(v ssa.Value, lit *ssa.Function) bool {
 	}
 	cal := call.Call.StaticCallee()
 	return cal != nil && origin(cal) == origin(lit.Parent())
+}
+
+// cancelsFirst: the literal calls the captured cancel function (the one context.WithCancel returned to the literal's parent) in
+// its entry block.
+func cancelsFirst(lit *ssa.Function, cancel ssa.Value) bool {
+	if len(lit.Blocks) == 0 {
+		return false
+	}
+	for _, in := range lit.Blocks[0].Instrs {
+		call, ok := in.(*ssa.Call)
+		if !ok || call.Call.IsInvoke() {
+			continue
+		}
+		ld, ok := call.Call.Value.(*ssa.UnOp)
+		if !ok || ld.Op != token.MUL {
+			continue
+		}
+		if cell := cellOf(ld.X); cell != nil {
+			for _, st := range storesTo(cell) {
+				if st.Val == cancel {
+					return true
+				}
+			}
+		}
+	}
+	return false
 }
